@@ -1457,6 +1457,87 @@ def desugar_next_iter(fn):
     return n_done
 
 
+def strip_annotations(tree):
+    """annotations are not evaluated as part of the behaviour the rules reason about: parameter/return annotations are
+    dropped, `x: T = v` becomes `x = v`, a bare `x: T` disappears"""
+    n_done = 0
+    for n in ast.walk(tree):
+        if isinstance(n, (ast.FunctionDef, ast.AsyncFunctionDef)):
+            if n.returns is not None:
+                n.returns = None
+                n_done += 1
+            a = n.args
+            for arg in a.posonlyargs + a.args + a.kwonlyargs + ([a.vararg] if a.vararg else []) + ([a.kwarg] if a.kwarg else []):
+                if arg.annotation is not None:
+                    arg.annotation = None
+                    n_done += 1
+        for field in ("body", "orelse", "finalbody"):
+            blk = getattr(n, field, None)
+            if isinstance(blk, list) and blk and isinstance(blk[0], ast.stmt):
+                new = []
+                for st in blk:
+                    if isinstance(st, ast.AnnAssign):
+                        n_done += 1
+                        if st.value is None:
+                            continue
+                        asg = ast.Assign(targets=[st.target], value=st.value)
+                        new.append(ast.copy_location(asg, st))
+                    else:
+                        new.append(st)
+                if not new and field == "body":
+                    new = [ast.copy_location(ast.Pass(), blk[0])]
+                setattr(n, field, new)
+        if isinstance(n, ast.Try):
+            for h in n.handlers:
+                new = []
+                for st in h.body:
+                    if isinstance(st, ast.AnnAssign):
+                        n_done += 1
+                        if st.value is not None:
+                            new.append(ast.copy_location(ast.Assign(targets=[st.target], value=st.value), st))
+                    else:
+                        new.append(st)
+                h.body = new or [ast.copy_location(ast.Pass(), n)]
+    if n_done:
+        ast.fix_missing_locations(tree)
+    return n_done
+
+
+def inline_module_string_constants(tree):
+    """private module-level names bound exactly once to a string or a tuple of strings (named "magic strings") are
+    replaced by the constant at their uses inside functions"""
+    consts = {}
+    for st in tree.body:
+        if isinstance(st, ast.Assign) and len(st.targets) == 1 and isinstance(st.targets[0], ast.Name) and st.targets[0].id.startswith("_") \
+                and not st.targets[0].id.startswith("__"):
+            v = st.value
+            if isinstance(v, ast.Constant) and isinstance(v.value, str):
+                consts[st.targets[0].id] = v
+            elif isinstance(v, ast.Tuple) and v.elts and all(isinstance(e, ast.Constant) and isinstance(e.value, str) for e in v.elts):
+                consts[st.targets[0].id] = v
+    for name in list(consts):
+        stores = [n for n in ast.walk(tree) if isinstance(n, ast.Name) and n.id == name and isinstance(n.ctx, (ast.Store, ast.Del))]
+        shadow = [n for n in ast.walk(tree) if isinstance(n, ast.arg) and n.arg == name]
+        if len(stores) != 1 or shadow:
+            del consts[name]
+    if not consts:
+        return 0
+    n_done = 0
+
+    class T(ast.NodeTransformer):
+        def visit_Name(self, node):
+            nonlocal n_done
+            if isinstance(node.ctx, ast.Load) and node.id in consts:
+                n_done += 1
+                return ast.copy_location(copy.deepcopy(consts[node.id]), node)
+            return node
+    for fn in [x for x in ast.walk(tree) if isinstance(x, (ast.FunctionDef, ast.AsyncFunctionDef))]:
+        fn.body = [T().visit(st) for st in fn.body]
+    if n_done:
+        ast.fix_missing_locations(tree)
+    return n_done
+
+
 def desugar_yield_from_genexp(fn):
     """`yield from (e for x in s if c)`  ->  `for x in s: if c: yield e` (statement position)"""
     n_done = 0
@@ -1634,6 +1715,12 @@ def normalize_module(tree, property_names=None):
     """in place; -> dict of counters (generator helpers are inlined program-wide before this); property_names: attribute
     names that are properties of the package (None: attribute reads are never moved)"""
     stats = {}
+    k = strip_annotations(tree)
+    if k:
+        stats["annotations_stripped"] = k
+    k = inline_module_string_constants(tree)
+    if k:
+        stats["module_string_constants"] = k
     k = desugar_attrgetter(tree)
     if k:
         stats["attrgetter"] = k
